@@ -169,3 +169,9 @@ Definition agree4z (p : N * case4) : bool := let '(z, (a, b, c0, d)) := p in agr
 Definition ok_sel2z (tgl : list (N * strig)) (sizes : list (N * N)) (fm hc lm : bool) (gd thr gz : N) (f : list call)
                     (orecs : list seen5) : bool :=
   list_eqb seen_eqb orecs (map ideal (flat_map (sel2 (assoc notrig2 tgl) (assoc 0 sizes) hc lm (x02z fm gd thr gz) 0) f)).
+
+(* the finish trigger: the implementation's records against the model run that stops at the first firing entry *)
+Definition ok_fin (c : cfg) (es : list ev) (orecs : list seen5) : bool :=
+  list_eqb seen_eqb (map seen (out (fst (fst (exec_f c es (init, [], false)))))) orecs.
+(* did the finish trigger fire at all in the model run (statistics) *)
+Definition fin_fired (c : cfg) (es : list ev) : bool := snd (exec_f c es (init, [], false)).
